@@ -269,6 +269,22 @@ m('flowfn-glv-decomp','C16',['FLOW-FN','FLOW-REF'],'std/algebra/emulated/sw_emul
 	s1bits := c.scalarApi.ToBits(s1)''','''	_, _ = s3, s4
 
 	s1bits := c.scalarApi.ToBits(s1)''',note='GLV decomposition of the scalar no longer tied to s in scalarMulGLV')
+edit('std/math/cmp/bounded.go',[('''func (bc BoundedComparator) Min(a, b frontend.Variable) frontend.Variable {
+	res, err := bc.api.Compiler().NewHint(minOutputHint, 1, a, b)''','''func (bc BoundedComparator) Min(a, b frontend.Variable) frontend.Variable {
+	return bc.minChecked(a, b)
+}
+
+func (bc BoundedComparator) minChecked(a, b frontend.Variable) frontend.Variable {
+	res, err := bc.api.Compiler().NewHint(minOutputHint, 1, a, b)'''),('''	// (a - min) + (b - min) >= 0
+	bc.assertIsNonNegative(bc.api.Add(aDiff, bDiff))
+''','''	bc.minSumNonNegative(aDiff, bDiff)
+'''),('''// cmpInField compares a and b''','''// (a - min) + (b - min) >= 0
+func (bc BoundedComparator) minSumNonNegative(aDiff, bDiff frontend.Variable) {
+	bc.assertIsNonNegative(bc.api.Add(aDiff, bDiff))
+}
+
+// cmpInField compares a and b''')])
+save('benign-flow-wrapper','C14','std/math/cmp/bounded.go','Min split into an exported wrapper and an internal method, one assertion moved into a helper')
 json.dump({'comment':'selftest mutants: each patch breaks one rule instance and must be detected by the listed rule(s) of its property; produced by tools/make_selftest.py','mutants':M}, open(os.path.join(root,'selftest','mutants.json'),'w'), indent=1)
 subprocess.run(['git','-C','/repo','worktree','remove','--force',WT],capture_output=True)
 print(len(M),'mutants')
